@@ -12,6 +12,7 @@ import (
 	"sort"
 	"time"
 
+	"github.com/sheerbytes/sheerbytes/internal/transfer"
 	"github.com/sheerbytes/sheerbytes/internal/wsclient"
 	"github.com/sheerbytes/sheerbytes/pkg/protocol"
 )
@@ -27,6 +28,10 @@ type VerifSenderOpts struct {
 	PeerID       string
 	SessionID    string
 	ManifestID   string
+	// Benchmark is what `thru host --benchmark` sets (SnapshotSenderConfig.Benchmark): progress
+	// rows carry a bench.Bench, runTransfer freezes them, and the application runs
+	// startBenchmarkLoop (whose tick the harness drives through TickBenchmarks).
+	Benchmark bool
 }
 
 // VerifSender wraps a real SnapshotSender.
@@ -53,6 +58,7 @@ func VerifNewSnapshotSender(o VerifSenderOpts) *VerifSender {
 		sessionID:   o.SessionID,
 		manifestID:  o.ManifestID,
 		transferFn:  o.TransferFn,
+		benchmark:   o.Benchmark,
 	}
 	s.summary = protocol.ManifestSummary{ManifestID: o.ManifestID}
 	return &VerifSender{s: s}
@@ -110,4 +116,42 @@ func (v *VerifSender) HoldProgress() (release func()) {
 // that connection on the slot the peer id currently holds.
 func (v *VerifSender) SetTransferCloser(peerID string, fn func()) {
 	v.s.setTransferCloser(peerID, fn)
+}
+
+// InitProgress is the first thing runICEQUICTransfer does for its receiver: it creates (or
+// resets) the receiver's row of the progress table.
+func (v *VerifSender) InitProgress(peerID string, totalBytes int64) {
+	v.s.initSenderProgress(peerID, totalBytes)
+}
+
+// TickBenchmarks is one tick of startBenchmarkLoop (1 Hz in the application, host started with --benchmark).
+func (v *VerifSender) TickBenchmarks(now time.Time) { v.s.tickBenchmarks(now) }
+
+// RenderView is what the progress renderer (progress.RenderSender) calls for every frame.
+func (v *VerifSender) RenderView() int { return len(v.s.senderView().Rows) }
+
+// ProgressHeld reports whether somebody holds the progress-table mutex right now.
+func (v *VerifSender) ProgressHeld() bool {
+	if v.s.progressMu.TryLock() {
+		v.s.progressMu.Unlock()
+		return false
+	}
+	return true
+}
+
+// AdmissionHeld reports whether somebody holds the admission-state mutex (s.mu) right now.
+func (v *VerifSender) AdmissionHeld() bool {
+	if v.s.mu.TryLock() {
+		v.s.mu.Unlock()
+		return false
+	}
+	return true
+}
+
+// VerifSendDumbDataMulti is the data phase of runICEQUICTransfer in raw mode
+// (`thru host --dumb --dumb-connections N`): the real sendDumbDataMulti over the
+// connections the caller hands in (primary connection first).
+func (v *VerifSender) VerifSendDumbDataMulti(ctx context.Context, peerID string, conns []transfer.Conn, name string, size int64) error {
+	v.s.setSenderConnCount(peerID, len(conns))
+	return sendDumbDataMulti(ctx, conns, name, size)
 }
